@@ -237,6 +237,7 @@ static void Tuple_Rem(var self, var item) {
     }
     i++;
   }
+  throw(ValueError, "Object %$ not in Tuple!", item);
 }
 
 static int Tuple_Show(var self, var output, int pos) {
